@@ -584,7 +584,8 @@ static bool elem_is(const void *p, unsigned char b0, size_t siz)
 static int cmp_key(void const *l, void const *r)
 {
     int a = *(unsigned char const *)l >> 4, b = *(unsigned char const *)r >> 4;
-    return (a > b) - (a < b);
+    // any negative / zero / positive value is a valid answer: magnitudes other than one catch code that uses the result as +-1
+    return a > b ? 3 : a < b ? -5 : 0;
 }
 static std::vector<unsigned char> dtor_log;
 static void log_dtor(void *p) { dtor_log.push_back(*(unsigned char *)p); }
